@@ -127,6 +127,23 @@ def main():
         for nm, v in zip(names, vals):
             sign = -1 if nm.endswith(('rx', 'ry', 'rz')) else 1
             if abs(getattr(tt, nm) - sign * v / 1000) > 5.1e-9:
-                fl.append(dict(input=dict(field=nm, value=v), what='iers2trans unit/sign conversion', got=getattr(tt, nm)))
+                fl.append(dict(input=dict(field=nm, value=v, values=list(vals)), what='iers2trans unit/sign conversion', got=getattr(tt, nm)))
     P.bounded_result('C11.B.iers2trans', 'constants.iers2trans', n, n, 'random IERS-style tuples (mm, ppb, mas with 1-3 decimals): stored value = +-v/1000 within the 8-decimal rounding', [dict(values='random')], fl)
     P.finish('proof')
+
+
+def replay(d):
+    """bounded record of the unit conversion: the recorded 14-tuple is converted again on the current tree"""
+    fi = d.get('failing_input') or {}
+    inp = fi.get('input', fi)
+    if d.get('layer') == 'B' and isinstance(inp, dict) and 'values' in inp:
+        import datetime
+        import geodepy.constants as C
+        names14 = ('tx', 'ty', 'tz', 'sc', 'rx', 'ry', 'rz', 'd_tx', 'd_ty', 'd_tz', 'd_sc', 'd_rx', 'd_ry', 'd_rz')
+        tt = C.iers2trans('a', 'b', datetime.date(2010, 1, 1), *inp['values'])
+        for nm, v in zip(names14, inp['values']):
+            sign = -1 if nm.endswith(('rx', 'ry', 'rz')) else 1
+            if abs(getattr(tt, nm) - sign * v / 1000) > 5.1e-9:
+                return dict(input=inp, what='iers2trans unit/sign conversion', field=nm, observed=getattr(tt, nm), expected=sign * v / 1000)
+        return None
+    return dict(note='no per-input replay', input=inp)
